@@ -24,12 +24,17 @@ GEOM = {
 UNSTABLE = {'acos', 'asin', 'cos'}
 
 
-def one(repo, name):
+def paths(repo, name):
+    """Every path of the kernel (a kernel may branch on its inputs; each branch must satisfy the rules)."""
     fi = repo.func('conversion.beamline', name)
     outs = run_kernel(repo, fi, specs_for(fi))
-    if len(outs) != 1 or outs[0].kind != 'return':
-        raise AnalysisError(f'{fi.fq}: expected one straight-line path')
-    return fi, outs[0]
+    if not outs:
+        raise AnalysisError(f'{fi.fq}: no path')
+    return fi, outs
+
+
+def cond_text(o):
+    return [f'{getattr(c, "why", None) or (T.show(c.term) if getattr(c, "term", None) is not None else repr(c))} -> {taken}' for c, taken, _w in o.conditions][:4]
 
 
 def angle_shape(t: Rat):
@@ -66,42 +71,50 @@ def run(tier: str) -> Run:
     run.trusted = ['sa/scipp_model.py', 'sa/term.py', 'spec/formulas.py']
     r1 = run.rule('R1', 'Euclidean definitions of beams and lengths (term identity)', 6)
     for name, want in GEOM.items():
-        fi, out = one(repo, name)
-        got = term_of(out.value, fi)
-        w = want()
-        r1.check(eq_term(got, w), name, loc(fi), {'computed': T.show(got), 'definition': T.show(w)}, key=name)
+        fi, outs = paths(repo, name)
+        for out in outs:
+            if out.kind != 'return':
+                r1.fail(name, loc(fi), {'problem': f'raises {out.exc_type} at {out.where}', 'path': cond_text(out)}, key=name)
+                continue
+            got = term_of(out.value, fi)
+            w = want()
+            r1.check(eq_term(got, w), name, loc(fi), {'computed': T.show(got), 'definition': T.show(w), 'path': cond_text(out)}, key=name)
 
     r2 = run.rule('R2', 'two_theta is an epsilon-accurate angle formula; no acos/asin/cos of a normalised product', 1)
     r3 = run.rule('R3', 'shape confines the angle to [0, pi]', 1)
     r4 = run.rule('R4', 'invariant under swapping the beams and under positive rescaling of either beam', 3)
     r5 = run.rule('R5', 'no geometry kernel writes to an argument', 7)
-    fi, out = one(repo, 'two_theta')
-    got = term_of(out.value, fi)
+    fi, outs_tt = paths(repo, 'two_theta')
     b1, b2 = V('incident_beam'), V('scattered_beam')
     kahan, alt = formulas.kahan_angle(b1, b2), formulas.cross_dot_angle(b1, b2)
-    used = sorted({e.detail['fn'] for e in events(out, 'math-call')})
-    bad_fns = sorted(set(used) & UNSTABLE)
-    r2.check((eq_term(got, kahan) or eq_term(got, alt)) and not bad_fns, 'two_theta', loc(fi),
-             {'computed': T.show(got), 'accepted': [T.show(kahan), T.show(alt)], 'math_calls': used,
-              'unstable_calls': bad_fns}, key='two_theta')
-    sh = angle_shape(got)
-    ok = False
-    if sh is not None:
-        c, y, x = sh
-        ok = (c == 2 and nonneg(y) and nonneg(x)) or (c == 1 and nonneg(y))
-    r3.check(ok, 'two_theta', loc(fi), {'shape': None if sh is None else {'factor': str(sh[0]), 'y': T.show(sh[1]), 'x': T.show(sh[2])},
-                                        'argument': 'atan2(y>=0, x>=0) in [0, pi/2], doubled; or atan2(y>=0, x) in [0, pi]'}, key='two_theta')
-    ai, as_ = formulas.param_atom('incident_beam'), formulas.param_atom('scattered_beam')
-    swapped = got.subst({ai.id: b2, as_.id: b1})
-    r4.check(eq_term(swapped, got), 'swap(b1,b2)', loc(fi), {'swapped': T.show(swapped)}, key='swap')
-    k = formulas.S('k_scale')
-    for nm, atom_, vec in (('scale(b1)', ai, b1), ('scale(b2)', as_, b2)):
-        scaled = got.subst({atom_.id: vec * k})
-        r4.check(eq_term(scaled, got), nm, loc(fi), {'scaled': T.show(scaled)}, key=nm)
+    for out in outs_tt:
+        if out.kind != 'return':
+            r2.fail('two_theta', loc(fi), {'problem': f'raises {out.exc_type} at {out.where}', 'path': cond_text(out)}, key='two_theta')
+            continue
+        got = term_of(out.value, fi)
+        used = sorted({e.detail['fn'] for e in events(out, 'math-call')})
+        bad_fns = sorted(set(used) & UNSTABLE)
+        r2.check((eq_term(got, kahan) or eq_term(got, alt)) and not bad_fns, 'two_theta', loc(fi),
+                 {'computed': T.show(got), 'accepted': [T.show(kahan), T.show(alt)], 'math_calls': used,
+                  'unstable_calls': bad_fns, 'path': cond_text(out)}, key='two_theta')
+        sh = angle_shape(got)
+        ok = False
+        if sh is not None:
+            c, y, x = sh
+            ok = (c == 2 and nonneg(y) and nonneg(x)) or (c == 1 and nonneg(y))
+        r3.check(ok, 'two_theta', loc(fi), {'shape': None if sh is None else {'factor': str(sh[0]), 'y': T.show(sh[1]), 'x': T.show(sh[2])},
+                                            'argument': 'atan2(y>=0, x>=0) in [0, pi/2], doubled; or atan2(y>=0, x) in [0, pi]', 'path': cond_text(out)}, key='two_theta')
+        ai, as_ = formulas.param_atom('incident_beam'), formulas.param_atom('scattered_beam')
+        swapped = got.subst({ai.id: b2, as_.id: b1})
+        r4.check(eq_term(swapped, got), 'swap(b1,b2)', loc(fi), {'swapped': T.show(swapped)}, key='swap')
+        k = formulas.S('k_scale')
+        for nm, atom_, vec in (('scale(b1)', ai, b1), ('scale(b2)', as_, b2)):
+            scaled = got.subst({atom_.id: vec * k})
+            r4.check(eq_term(scaled, got), nm, loc(fi), {'scaled': T.show(scaled)}, key=nm)
     for name in [*GEOM, 'two_theta']:
-        fi_, out_ = one(repo, name)
-        muts = events(out_, 'mutates-param')
-        r5.check(not muts, name, loc(fi_), {'writes': [dict(e.detail, where=e.where) for e in muts]}, key=name)
+        fi_, outs_ = paths(repo, name)
+        muts = [e for o_ in outs_ for e in events(o_, 'mutates-param')]
+        r5.check(not muts, name, loc(fi_), {'writes': [dict(e.detail, where=e.where) for e in muts[:3]]}, key=name)
 
     # graph tables
     r6 = run.rule('R6', 'beamline graph entries are one-step sound against the Euclidean definitions', 7)
